@@ -2,19 +2,75 @@ package main
 
 import (
 	"fmt"
+	"os"
+	"sort"
 
-	"golang.org/x/tools/go/packages"
-	"golang.org/x/tools/go/ssa"
-	"golang.org/x/tools/go/ssa/ssautil"
+	"bbcheck/internal/an"
+	"bbcheck/internal/props"
 )
 
 func main() {
-	cfg := &packages.Config{Mode: packages.LoadAllSyntax, Dir: "/repo"}
-	pkgs, err := packages.Load(cfg, "./...")
-	if err != nil {
-		panic(err)
+	dir := "/repo"
+	if d := os.Getenv("BB_REPO"); d != "" {
+		dir = d
 	}
-	prog, spkgs := ssautil.AllPackages(pkgs, ssa.BuilderMode(0))
-	prog.Build()
-	fmt.Println(len(pkgs), len(spkgs))
+	p, err := an.Load(dir, nil, "")
+	if err != nil {
+		fmt.Println("LOAD ERROR:", err)
+		os.Exit(2)
+	}
+	fmt.Println("funcs:", len(p.Funcs), "files:", p.Files)
+	s, err := an.NewSim(p, props.E1Tables())
+	if err != nil {
+		fmt.Println("ANCHOR ERROR:", err)
+		os.Exit(2)
+	}
+	s.AddAPIRoots()
+	s.Run()
+	var keys []string
+	for k := range s.Obs {
+		keys = append(keys, k)
+	}
+	sort.Strings(keys)
+	bad := 0
+	for _, k := range keys {
+		o := s.Obs[k]
+		st := "ok "
+		if o.Violated {
+			st = "BAD"
+			bad++
+		}
+		if len(os.Args) > 1 && os.Args[1] == "-v" || o.Violated {
+			fmt.Printf("%s %-90s n=%d %s\n", st, k, o.Instances, pickS(o.Fail, o.Witness))
+			if o.Violated {
+				fmt.Println("      at", o.FailPos)
+			}
+		}
+	}
+	var ek []string
+	for k := range s.Edges {
+		ek = append(ek, k)
+	}
+	sort.Strings(ek)
+	for _, k := range ek {
+		fmt.Println("EDGE", k, s.Edges[k].Pos, s.Edges[k].Func)
+	}
+	fmt.Println("roots", s.NRoots, "frames", s.NFrames, "instrs", s.NInstr, "states", s.NStates, "obs", len(keys), "bad", bad)
+	for _, e := range s.Errors {
+		fmt.Println("ERR", e)
+	}
+	var un []string
+	for _, fn := range p.Funcs {
+		if !s.FuncsSeen[an.FuncName(fn)] {
+			un = append(un, an.FuncName(fn))
+		}
+	}
+	fmt.Println("unvisited:", un)
+}
+
+func pickS(a, b string) string {
+	if a != "" {
+		return a
+	}
+	return b
 }
